@@ -231,7 +231,7 @@ func (j *composeJudge) judgeDecompose(b ref.Bits, bufCap int, bufLen int) {
 func genComposeArgs(r *gen.RNG) (byte, bool, []byte, int32) {
 	neg := r.Bool()
 	lead := func(b []byte) []byte {
-		z := r.Pick(0, 0, 0, 1, 2, 8)
+		z := r.Pick(0, 0, 0, 1, 2, 8, 15, 16, 17, 30, 31, 32, 33, 40, 300)
 		return append(make([]byte, z), b...)
 	}
 	switch r.Intn(12) {
